@@ -12,7 +12,15 @@ import (
 
 func stabCheck(res *vs.Result, user any) []vs.Violation {
 	r := user.(*convRun)
-	out := convCheck(res, user)
+	var out []vs.Violation
+	if r.scn.NoFilter {
+		// lone sub-packages reach the handlers here: the reply oracle does not apply, only crashes and stability
+		if out = baseViolations(res, serverIdle); len(out) > 0 {
+			return out
+		}
+	} else {
+		out = convCheck(res, user)
+	}
 	if len(out) > 0 {
 		// a wrong reply is C09's business only when it was computed from another message's bytes;
 		// keep the signature but mark the origin
@@ -76,6 +84,15 @@ func c09Scenarios(thorough bool) []convScn {
 			out = append(out, s)
 		}
 	}
+	// a transfer that never completes, the terminal hangs up: what the callbacks were handed (the first packet is what
+	// the join callback sees; with the sub-package filter off every packet reaches the handlers) must survive teardown
+	frX := tmsg{ID: 0x0801, Phone: p, Serial: 30, Total: 3, Number: 1, Body: "000000cc00000102aabbccddeeff00112233445566778899aabbccddeeff001122334455"}
+	frY := tmsg{ID: 0x0801, Phone: p, Serial: 31, Total: 3, Number: 3, Body: "c1c2c3c4"}
+	for i, h := range [][]tmsg{{frX}, {plain1, frX}, {frX, frY}, {frX, plain2, frY}, {fr1}} {
+		for _, nf := range []bool{false, true} {
+			out = append(out, convScn{Name: fmt.Sprintf("stab:incomplete:%d:nofilter=%v", i, nf), Conns: [][]tmsg{h}, Stab: true, Close: true, NoFilter: nf})
+		}
+	}
 	return out
 }
 
@@ -84,7 +101,7 @@ func init() {
 		ID:         "C09",
 		Level:      "model_checking",
 		SingleProc: true,
-		Rule: "one connection, 14 histories of 2..5 frames from {escape-free, escaped, fragmented pair (reassembled), fragmented+ordinary interleaved}, delivered one frame per read, two per read, every frame split in the middle (each read = tail of one frame + head of the next), and one per read followed by the terminal closing; " +
+		Rule: "one connection, 14 histories of 2..5 frames from {escape-free, escaped, fragmented pair (reassembled), fragmented+ordinary interleaved}, delivered one frame per read, two per read, every frame split in the middle (each read = tail of one frame + head of the next), and one per read followed by the terminal closing; plus 5 histories that leave a sub-package transfer incomplete when the terminal hangs up, with the sub-package filter on (the join callback holds packet 1) and off (every packet reaches the handlers); " +
 			"recording handlers snapshot every delivered Message inside OnReadExecutionEvent and keep the pointer; ALL schedules of reader/writer/terminal within the deviation bound (2 quick, 3 thorough) are executed; " +
 			"at every later callback and at quiescence each kept Message is compared with its snapshot, and every reply on the socket with the reference reply of the snapshotted request. Non-trivial = schedule with >=1 deviation",
 		Assumptions: []string{"scheduling points at channel/socket/once operations; unsynchronised accesses are C18's subject"},
